@@ -120,7 +120,7 @@ def run_shard(tier: str, seed: int, shard):
             continue
         xs = G.x_points(cls, p, tier, seed)
         for h in heights:
-            check_term(acc, cls, p, h, xs)
+            acc.guard({"term": cls, "params": p, "height": h, "x": xs[0]}, check_term, acc, cls, p, h, xs)
         acc.extra["parameterisations"] += len(heights)
         if idx == chunk:
             acc.sample({"term": cls, "params": p, "height": heights[-1], "x": xs[len(xs) // 2],
@@ -154,5 +154,5 @@ def replay(case: dict):
     acc = Acc(ID)
     p = [float(v) for v in case["params"]]
     xs = sorted({float(case[k]) for k in ("x", "x_prev") if k in case and not math.isnan(float(case[k]))})
-    check_term(acc, case["term"], p, float(case["height"]), xs)
+    acc.guard(case, check_term, acc, case["term"], p, float(case["height"]), xs)
     return acc.violations
